@@ -126,9 +126,9 @@ Proof.
     auto.
 Qed.
 
-Lemma cc_begin_ok o slots : cc_ok HNone false [] (snd (cc_begin o slots)) = true.
+Lemma cc_begin_ok lg o slots : cc_ok HNone false [] (snd (cc_begin lg o slots)) = true.
 Proof.
-  destruct o; cbn; try reflexivity;
+  destruct lg, o; cbn; try reflexivity;
     repeat match goal with |- context [match ?x with _ => _ end] => destruct x end; reflexivity.
 Qed.
 
@@ -434,7 +434,7 @@ Lemma cc_release_spec c t th th1 l :
   exists mu' fm',
     cc_release c t th1 l =
       mkCcC (cf_st c) mu' fm' (list_set t (th_set_held th1 (fst (after_rel th l)) (snd (after_rel th l))) (cf_threads c))
-            (cf_bad c) (cf_panics c) /\
+            (cf_bad c) (cf_panics c) (cf_legacy c) /\
     locks_wf mu' fm' (map held_of (list_set t (th_set_held th1 (fst (after_rel th l)) (snd (after_rel th l))) (cf_threads c))).
 Proof.
   intros Hwf Hn He Hh. pose proof (nth_held _ _ _ Hn) as Hnh.
@@ -470,6 +470,17 @@ Proof.
     eexists; (split; [reflexivity|reflexivity]).
 Qed.
 
+Lemma cc_release_shape c t th1 l :
+  cf_st (cc_release c t th1 l) = cf_st c /\
+  exists x, cf_threads (cc_release c t th1 l) = list_set t x (cf_threads c) /\
+            th_prog x = th_prog th1 /\ th_active x = th_active th1 /\ th_fr x = th_fr th1 /\
+            th_code x = th_code th1 /\ th_leaked x = th_leaked th1.
+Proof.
+  unfold cc_release.
+  destruct l; repeat match goal with |- context [match ?x with _ => _ end] => destruct x end;
+    (split; [reflexivity|]); eexists; (split; [reflexivity|]); cbn; auto.
+Qed.
+
 Lemma leaked_monotone c t : cc_noleak (cc_step c t) -> cc_noleak c.
 Proof.
   unfold cc_step. destruct (cc_enabled c t); [|auto]. cbn [negb].
@@ -485,7 +496,7 @@ Proof.
   { intros th1 l Hl. destruct (cc_release_threads c t th1 l) as (x & Hx & Hlx).
     apply (Hgen _ x Hx). congruence. }
   destruct (cc_next_of th) eqn:Hnx; auto.
-  - destruct (th_prog th) as [|o rest]; [auto|]. destruct (cc_begin o (th_slots th)) as [f code].
+  - destruct (th_prog th) as [|o rest]; [auto|]. destruct (cc_begin (cf_legacy c) o (th_slots th)) as [f code].
     apply Hgen with (new := mkCcT rest true code [] f (th_slots th) (th_results th) (th_mu th) (th_f th) (th_leaked th)); auto.
   - destruct i as [l r|l|l|a].
     + unfold cc_acquire. destruct l; eapply Hgen; try reflexivity; cbn; auto.
@@ -517,12 +528,12 @@ Proof.
   destruct (cc_next_of th) eqn:Hnx.
   - (* start of a call *)
     apply next_start in Hnx as (Hact & o & rest & Hp). rewrite Hp in *.
-    destruct (cc_begin o (th_slots th)) as [f code] eqn:Hb.
+    destruct (cc_begin (cf_legacy c) o (th_slots th)) as [f code] eqn:Hb.
     destruct Hwt as [[Ha _]|(_ & Hm & Hf & Hd & Hc)]; [congruence|].
     split; [split|]; cbn; [| |exact Hbad].
     + eapply wf_same; eauto.
     + eapply threads_set; eauto. left. cbn. split; [reflexivity|]. unfold cc_hasf. cbn. rewrite Hm, Hf.
-      pose proof (cc_begin_ok o (th_slots th)) as Hok. now rewrite Hb in Hok.
+      pose proof (cc_begin_ok (cf_legacy c) o (th_slots th)) as Hok. now rewrite Hb in Hok.
   - (* an instruction *)
     apply next_instr in Hnx as (Hact & r & Hc). pose proof (wt_active th Hwt Hact) as Hok. rewrite Hc in *.
     cbn [tl]. destruct i as [l x|l|l|a].
@@ -599,9 +610,9 @@ Proof.
 Qed.
 
 (* ------------------------------------------------------------------ all schedules *)
-Lemma cc_inv_init s progs : cc_inv (cc_init_from s progs) /\ cf_bad (cc_init_from s progs) = None.
+Lemma cc_inv_init_gen lg s progs : cc_inv (cc_init_gen lg s progs) /\ cf_bad (cc_init_gen lg s progs) = None.
 Proof.
-  split; [|reflexivity]. unfold cc_inv, cc_init_from. cbn. split; [split; [|split]|].
+  split; [|reflexivity]. unfold cc_inv, cc_init_gen. cbn. split; [split; [|split]|].
   - intros t h Hn. apply nth_held_inv in Hn as (th & Hn & <-).
     rewrite nth_error_map in Hn. destruct (nth_error progs t); [|discriminate]. now inversion Hn.
   - discriminate.
@@ -628,6 +639,9 @@ Proof.
   rewrite run_snoc. intros Hnl. pose proof (leaked_monotone _ _ Hnl) as Hnl'.
   destruct (IH Hnl') as [Hi' Hb']. now apply cc_step_inv.
 Qed.
+
+Lemma cc_inv_init s progs : cc_inv (cc_init_from s progs) /\ cf_bad (cc_init_from s progs) = None.
+Proof. apply cc_inv_init_gen. Qed.
 
 (* ------------------------------------------------------------------ no deadlock *)
 Lemma enabled_any c t : cc_enabled c t = true -> cc_any_enabled c = true.
@@ -771,15 +785,17 @@ Qed.
 Definition cc_no_removeall (progs : list (list (option nat) * list op)) : Prop :=
   forall sp o, In sp progs -> In o (snd sp) -> match o with RemoveAll _ => False | _ => True end.
 
-(* ------------------------------------------------------------------ programs without RemoveAll never leak *)
+(* ------------------------------------------------------------------ today's table never leaks a lock *)
+(* the legacy sections of RemoveAll are the only ones that can panic with a lock no defer releases;
+   they run only in legacy configurations, and there only in calls of RemoveAll *)
 Definition cc_is_ra (a : cc_aid) : bool :=
   match a with ARaUnregT | ARaUnreg | ARaScan | ARaDelete | ARaNext => true | _ => false end.
 Definition cc_instr_nora (i : cc_instr) : bool := match i with CcAct a => negb (cc_is_ra a) | _ => true end.
 Definition cc_op_nora (o : op) : bool := match o with RemoveAll _ => false | _ => true end.
-Definition cc_th_nora (th : cc_thread) : Prop :=
-  forallb cc_instr_nora (th_code th) = true /\ forallb cc_op_nora (th_prog th) = true.
+Definition cc_th_nora (lg : bool) (th : cc_thread) : Prop :=
+  forallb cc_instr_nora (th_code th) = true /\ (lg = true -> forallb cc_op_nora (th_prog th) = true).
 Definition cc_nora (c : cc_cfg) : Prop :=
-  forall t th, nth_error (cf_threads c) t = Some th -> cc_th_nora th.
+  forall t th, nth_error (cf_threads c) t = Some th -> cc_th_nora (cf_legacy c) th.
 
 Lemma nora_touches l : forallb cc_instr_nora (cc_touches l) = true.
 Proof. induction l; cbn; auto. Qed.
@@ -803,42 +819,70 @@ Proof.
     cbn [forallb cc_instr_nora cc_is_ra negb andb]; rewrite ?forallb_app, ?nora_touches, ?nora_of_next; auto.
 Qed.
 
-Lemma cc_begin_nora o slots : cc_op_nora o = true -> forallb cc_instr_nora (snd (cc_begin o slots)) = true.
+Lemma cc_begin_nora lg o slots :
+  (lg = true -> cc_op_nora o = true) -> forallb cc_instr_nora (snd (cc_begin lg o slots)) = true.
 Proof.
-  destruct o; cbn; try discriminate; try reflexivity; intros _;
+  destruct lg, o; cbn; try reflexivity; intros H; try (specialize (H eq_refl); discriminate);
     repeat match goal with |- context [match ?x with _ => _ end] => destruct x end; reflexivity.
 Qed.
 
 Lemma forallb_tl {A} (p : A -> bool) l : forallb p l = true -> forallb p (tl l) = true.
 Proof. destruct l; cbn; [auto|]. intros H. now apply andb_true_iff in H as [_ H]. Qed.
 
+Lemma cc_release_legacy c t th1 l : cf_legacy (cc_release c t th1 l) = cf_legacy c.
+Proof.
+  unfold cc_release.
+  destruct l; repeat match goal with |- context [match ?x with _ => _ end] => destruct x end; reflexivity.
+Qed.
+
+Lemma cc_step_legacy c t : cf_legacy (cc_step c t) = cf_legacy c.
+Proof.
+  unfold cc_step. destruct (cc_enabled c t); cbn [negb]; [|reflexivity].
+  destruct (nth_error (cf_threads c) t) as [th|]; [|reflexivity].
+  destruct (cc_next_of th); try reflexivity.
+  - destruct (th_prog th); [reflexivity|]. destruct (cc_begin (cf_legacy c) o (th_slots th)). reflexivity.
+  - destruct i as [l r|l|l|a]; try reflexivity.
+    + unfold cc_acquire. destruct l; reflexivity.
+    + apply cc_release_legacy.
+    + destruct (cc_sem a (th_fr th) (cf_st c)); reflexivity.
+  - apply cc_release_legacy.
+Qed.
+
+Lemma run_legacy c sched : cf_legacy (run_sched_from c sched) = cf_legacy c.
+Proof.
+  induction sched as [|t sched IH] using rev_ind; [reflexivity|]. now rewrite run_snoc, cc_step_legacy.
+Qed.
+
 Lemma cc_step_nora c t : cc_inv c -> cc_noleak c -> cc_nora c -> cc_noleak (cc_step c t) /\ cc_nora (cc_step c t).
 Proof.
-  intros [Hwf Hth] Hnl Hnr. unfold cc_step.
+  intros [Hwf Hth] Hnl Hnr. unfold cc_nora. rewrite cc_step_legacy. unfold cc_step.
   destruct (cc_enabled c t); cbn [negb]; [|auto].
   destruct (nth_error (cf_threads c) t) as [th|] eqn:Hn; [|auto].
   pose proof (Hth t th Hn) as Hwt. pose proof (Hnl t th Hn) as Hl. pose proof (Hnr t th Hn) as [Hc Hp].
   assert (Hgen : forall c' new, cf_threads c' = list_set t new (cf_threads c) ->
-                   th_leaked new = false -> cc_th_nora new -> cc_noleak c' /\ cc_nora c').
+                   th_leaked new = false -> cc_th_nora (cf_legacy c) new ->
+                   cc_noleak c' /\ (forall t' x, nth_error (cf_threads c') t' = Some x -> cc_th_nora (cf_legacy c) x)).
   { intros c' new Hc' Hl' Hn'. split.
     - intros t' x Hx. rewrite Hc' in Hx. revert t' x Hx.
       apply (threads_set (fun x => th_leaked x = false) _ t th new Hn); [exact Hnl|exact Hl'].
     - intros t' x Hx. rewrite Hc' in Hx. revert t' x Hx.
-      apply (threads_set cc_th_nora _ t th new Hn); [exact Hnr|exact Hn']. }
+      apply (threads_set (cc_th_nora (cf_legacy c)) _ t th new Hn); [exact Hnr|exact Hn']. }
   assert (Hrel : forall th1 l, th_leaked th1 = false -> th_code th1 = tl (th_code th) \/ th_code th1 = th_code th ->
                                th_prog th1 = th_prog th ->
-                               cc_noleak (cc_release c t th1 l) /\ cc_nora (cc_release c t th1 l)).
+                               cc_noleak (cc_release c t th1 l) /\
+                               (forall t' x, nth_error (cf_threads (cc_release c t th1 l)) t' = Some x -> cc_th_nora (cf_legacy c) x)).
   { intros th1 l Hl1 Hc1 Hp1.
     assert (Hnora1 : forallb cc_instr_nora (th_code th1) = true).
     { destruct Hc1 as [->| ->]; [now apply forallb_tl|exact Hc]. }
-    unfold cc_release.
-    destruct l; repeat match goal with |- context [match ?x with _ => _ end] => destruct x end;
-      eapply Hgen; try reflexivity; cbn; try assumption; split; cbn; congruence. }
+    destruct (cc_release_shape c t th1 l) as (_ & x & Hx & Hxp & _ & _ & Hxc & Hxl).
+    apply (Hgen _ x Hx); [congruence|]. split; [now rewrite Hxc|]. rewrite Hxp, Hp1. exact Hp. }
   destruct (cc_next_of th) eqn:Hnx; auto.
-  - destruct (th_prog th) as [|o rest] eqn:Hpr; [auto|]. cbn in Hp. apply andb_true_iff in Hp as [Ho Hrest].
-    destruct (cc_begin o (th_slots th)) as [f code] eqn:Hb.
-    eapply Hgen; [reflexivity|exact Hl|]. split; cbn; [|exact Hrest].
-    pose proof (cc_begin_nora o (th_slots th) Ho) as H. now rewrite Hb in H.
+  - destruct (th_prog th) as [|o rest] eqn:Hpr; [auto|].
+    destruct (cc_begin (cf_legacy c) o (th_slots th)) as [f code] eqn:Hb.
+    eapply Hgen; [reflexivity|exact Hl|]. split; cbn.
+    + pose proof (cc_begin_nora (cf_legacy c) o (th_slots th)) as H. rewrite Hb in H. apply H.
+      intros Hlg. specialize (Hp Hlg). cbn in Hp. now apply andb_true_iff in Hp as [Ho _].
+    + intros Hlg. specialize (Hp Hlg). cbn in Hp. now apply andb_true_iff in Hp as [_ Hr].
   - apply next_instr in Hnx as (Hact & r & Hcode). destruct i as [l x|l|l|a].
     + unfold cc_acquire. destruct l; eapply Hgen; try reflexivity; cbn; try assumption;
         (split; cbn; [now apply forallb_tl|exact Hp]).
@@ -869,14 +913,29 @@ Qed.
 Definition cc_progs_nora (progs : list (list (option nat) * list op)) : bool :=
   forallb (fun sp => forallb cc_op_nora (snd sp)) progs.
 
-Theorem conc_no_removeall_no_leak s progs sched :
-  cc_progs_nora progs = true -> cc_noleakb (cc_run_from s progs sched) = true.
+Lemma init_noleak lg s progs : cc_noleak (cc_init_gen lg s progs).
 Proof.
-  intros Hp. apply cc_noleakb_iff. destruct (cc_inv_init s progs) as [Hi Hb]. apply cc_nora_run; auto.
-  - intros t th Hn. unfold cc_init_from in Hn. cbn in Hn. rewrite nth_error_map in Hn.
-    destruct (nth_error progs t); [|discriminate]. now inversion Hn.
-  - intros t th Hn. unfold cc_init_from in Hn. cbn in Hn. rewrite nth_error_map in Hn.
-    destruct (nth_error progs t) as [sp|] eqn:Hs; [|discriminate]. inversion Hn; subst. split; [reflexivity|]. cbn.
+  intros t th Hn. unfold cc_init_gen in Hn. cbn in Hn. rewrite nth_error_map in Hn.
+  destruct (nth_error progs t); [|discriminate]. now inversion Hn.
+Qed.
+
+(* TODAY'S TABLE: no schedule of any programs leaks a lock *)
+Theorem conc_no_leak s progs sched : cc_noleakb (cc_run_from s progs sched) = true.
+Proof.
+  apply cc_noleakb_iff. destruct (cc_inv_init s progs) as [Hi Hb]. apply cc_nora_run; auto.
+  - apply init_noleak.
+  - intros t th Hn. unfold cc_init_from, cc_init_gen in Hn. cbn in Hn. rewrite nth_error_map in Hn.
+    destruct (nth_error progs t) as [sp|] eqn:Hs; [|discriminate]. inversion Hn; subst. split; [reflexivity|]. cbn. discriminate.
+Qed.
+
+(* the table before ce143d9: no leak as long as no program calls RemoveAll *)
+Theorem conc_legacy_no_removeall_no_leak s progs sched :
+  cc_progs_nora progs = true -> cc_noleakb (run_sched_from (cc_init_gen true s progs) sched) = true.
+Proof.
+  intros Hp. apply cc_noleakb_iff. destruct (cc_inv_init_gen true s progs) as [Hi Hb]. apply cc_nora_run; auto.
+  - apply init_noleak.
+  - intros t th Hn. unfold cc_init_gen in Hn. cbn in Hn. rewrite nth_error_map in Hn.
+    destruct (nth_error progs t) as [sp|] eqn:Hs; [|discriminate]. inversion Hn; subst. split; [reflexivity|]. cbn. intros _.
     unfold cc_progs_nora in Hp. rewrite forallb_forall in Hp. apply Hp. now apply nth_error_In in Hs.
 Qed.
 
@@ -1011,19 +1070,32 @@ Proof.
 Qed.
 
 Lemma cc_begin_for o slots :
-  fr_op (fst (cc_begin o slots)) = o /\ cc_code_for o (snd (cc_begin o slots)) = true.
+  fr_op (fst (cc_begin false o slots)) = o /\ cc_code_for o (snd (cc_begin false o slots)) = true.
 Proof.
   destruct o; cbn; auto;
     repeat match goal with |- context [match ?x with _ => _ end] => destruct x end; cbn; auto.
+Qed.
+
+Lemma tree_m_chmod s name m : cc_tree_of (fst (m_chmod s name m)) = cc_tree_of s.
+Proof.
+  unfold m_chmod. destruct (lookup s (normalize_path name)); [|reflexivity].
+  unfold set_file_mode. destruct (lookup s (normalize_path (normalize_path name))); [|reflexivity].
+  cbn. now apply tree_upd_node.
+Qed.
+
+Lemma tree_m_chtimes s name t : cc_tree_of (fst (m_chtimes s name t)) = cc_tree_of s.
+Proof.
+  unfold m_chtimes. destruct (lookup s (normalize_path name)); [|reflexivity]. cbn. now apply tree_upd_node.
 Qed.
 
 Section Transfer.
   Variable P : mst -> Prop.
   Variable A : op -> Prop.
   Hypothesis Htree : forall s s', cc_tree_of s = cc_tree_of s' -> P s -> P s'.
-  Hypothesis Hnora : forall p, ~ A (RemoveAll p).
   Hypothesis Hcreate : forall s p, A (Create p) -> P s -> P (fst (m_create s (normalize_path p))).
-  Hypothesis Hofcreate : forall s p fl pm, A (OpenFile p fl pm) -> P s -> P (fst (m_create s (normalize_path p))).
+  Hypothesis Hofcreate : forall s p fl pm s' x, A (OpenFile p fl pm) ->
+      cc_open_or_create s (normalize_path p) fl (Z.land pm chmod_bits) = Some (s', x) -> P s -> P s'.
+  Hypothesis Hremoveall : forall s p, A (RemoveAll p) -> P s -> P (fst (m_removeall s (normalize_path p))).
   Hypothesis Hmkdir : forall s p pm, A (Mkdir p pm) \/ A (MkdirAll p pm) -> lookup s (normalize_path p) = None ->
                                      P s -> P (cc_mkdir_body s (normalize_path p) (Z.land pm chmod_bits)).
   Hypothesis Hremove : forall s p, A (Remove p) -> P s -> P (fst (m_remove s (normalize_path p))).
@@ -1039,7 +1111,6 @@ Section Transfer.
     intros HA Ha HP. apply P_tick in HP.
     destruct a; destruct (fr_op f) eqn:Hop; try discriminate Ha; cbn [cc_sem]; rewrite ?Hop; cbn [cc_path].
     all: try exact HP.
-    all: try (exfalso; exact (Hnora _ HA)).
     all: try solve [
       repeat match goal with
              | |- context [match nth_error ?l ?i with _ => _ end] => destruct (nth_error l i)
@@ -1064,52 +1135,58 @@ Section Transfer.
       first [ exact HP
             | (eapply Htree; [|exact HP]; reflexivity)
             | (eapply Htree; [|exact HP]; symmetry; now apply tree_upd_node) ] ].
-    - (* ACreate *) pose proof (Hcreate _ p HA HP) as H. destruct (m_create (cc_tick s) (normalize_path p)). exact H.
-    - (* AMkdirCreate *) destruct (lookup (cc_tick s) (normalize_path p)) eqn:Hl; [exact HP|].
-      apply Hmkdir; auto.
-    - destruct (lookup (cc_tick s) (normalize_path p)) eqn:Hl; [exact HP|]. apply Hmkdir; auto.
-    - (* AOfCreate *) pose proof (Hofcreate _ p flag perm HA HP) as H.
-      destruct (m_create (cc_tick s) (normalize_path p)) as [s1 r]. cbn in H.
-      destruct r; first [exact H | (eapply Htree; [|exact H]; reflexivity)].
-    - (* ARemove *) pose proof (Hremove _ p HA HP) as H.
-      destruct (m_remove (cc_tick s) (normalize_path p)) as [s1 r]. cbn in H. destruct r; first [exact H|exact HP].
-    - (* ARename *) pose proof (Hrename _ p q HA HP) as H.
-      destruct (m_rename (cc_tick s) (normalize_path p) q) as [s1 r]. cbn in H. destruct r; first [exact H|exact HP].
+    all: try solve [
+      match goal with
+      | |- context [m_chmod ?s0 ?n ?m] =>
+        pose proof (tree_m_chmod s0 n m) as Ht; destruct (m_chmod s0 n m) as [s1 r]; cbn [fst] in Ht;
+        eapply Htree; [symmetry; exact Ht|exact HP]
+      | |- context [m_chtimes ?s0 ?n ?m] =>
+        pose proof (tree_m_chtimes s0 n m) as Ht; destruct (m_chtimes s0 n m) as [s1 r]; cbn [fst] in Ht;
+        eapply Htree; [symmetry; exact Ht|exact HP]
+      | |- context [m_create ?s0 (normalize_path ?p0)] =>
+        pose proof (Hcreate s0 p0 HA HP) as H; destruct (m_create s0 (normalize_path p0)); exact H
+      | |- context [m_remove ?s0 (normalize_path ?p0)] =>
+        pose proof (Hremove s0 p0 HA HP) as H; destruct (m_remove s0 (normalize_path p0)) as [s1 r]; cbn in H;
+        destruct r; first [exact H|exact HP]
+      | |- context [m_rename ?s0 (normalize_path ?p0) ?q0] =>
+        pose proof (Hrename s0 p0 q0 HA HP) as H; destruct (m_rename s0 (normalize_path p0) q0) as [s1 r]; cbn in H;
+        destruct r; first [exact H|exact HP]
+      | |- context [m_removeall ?s0 (normalize_path ?p0)] =>
+        pose proof (Hremoveall s0 p0 HA HP) as H; destruct (m_removeall s0 (normalize_path p0)) as [s1 r]; cbn in H;
+        destruct r; first [exact H|exact HP]
+      | |- context [cc_mkdir_body ?s0 (normalize_path ?p0) _] =>
+        destruct (lookup s0 (normalize_path p0)) eqn:Hl; [exact HP|]; apply Hmkdir; auto
+      | |- context [cc_open_or_create ?s0 (normalize_path ?p0) (cc_flag (OpenFile _ ?fl ?pm)) _] =>
+        cbn [cc_flag cc_perm];
+        destruct (cc_open_or_create s0 (normalize_path p0) fl (Z.land pm chmod_bits)) as [[s1 x]|] eqn:Hoc; [|exact HP];
+        pose proof (Hofcreate s0 p0 fl pm s1 x HA Hoc HP) as H; eapply Htree; [|exact H]; reflexivity
+      end ].
   Qed.
 
   Definition cc_th_for (th : cc_thread) : Prop :=
     Forall A (th_prog th) /\
     (th_active th = true -> A (fr_op (th_fr th)) /\ cc_code_for (fr_op (th_fr th)) (th_code th) = true).
 
-  Lemma cc_release_shape c t th1 l :
-    cf_st (cc_release c t th1 l) = cf_st c /\
-    exists x, cf_threads (cc_release c t th1 l) = list_set t x (cf_threads c) /\
-              th_prog x = th_prog th1 /\ th_active x = th_active th1 /\ th_fr x = th_fr th1 /\ th_code x = th_code th1.
-  Proof.
-    unfold cc_release.
-    destruct l; repeat match goal with |- context [match ?x with _ => _ end] => destruct x end;
-      (split; [reflexivity|]); eexists; (split; [reflexivity|]); cbn; auto.
-  Qed.
-
   Lemma cc_step_P c t :
+    cf_legacy c = false ->
     P (cf_st c) -> (forall t' th, nth_error (cf_threads c) t' = Some th -> cc_th_for th) ->
     P (cf_st (cc_step c t)) /\
     (forall t' th, nth_error (cf_threads (cc_step c t)) t' = Some th -> cc_th_for th).
   Proof.
-    intros HP Hall. unfold cc_step. destruct (cc_enabled c t); cbn [negb]; [|auto].
+    intros Hlg HP Hall. unfold cc_step. rewrite Hlg. destruct (cc_enabled c t); cbn [negb]; [|auto].
     destruct (nth_error (cf_threads c) t) as [th|] eqn:Hn; [|auto].
     pose proof (Hall t th Hn) as [Hprog Hcode].
     assert (Hrel : forall th1 l, th_prog th1 = th_prog th -> th_active th1 = th_active th -> th_fr th1 = th_fr th ->
                      (th_code th1 = tl (th_code th) \/ th_code th1 = th_code th) ->
                      P (cf_st (cc_release c t th1 l)) /\
                      (forall t' x, nth_error (cf_threads (cc_release c t th1 l)) t' = Some x -> cc_th_for x)).
-    { intros th1 l H1 H2 H3 H4. destruct (cc_release_shape c t th1 l) as (Hs & x & Hx & Hp & Ha & Hf & Hc).
+    { intros th1 l H1 H2 H3 H4. destruct (cc_release_shape c t th1 l) as (Hs & x & Hx & Hp & Ha & Hf & Hc & _).
       rewrite Hs, Hx. split; [exact HP|]. eapply threads_set; eauto. split; [now rewrite Hp, H1|].
       rewrite Ha, H2, Hf, H3, Hc. intros Hact. destruct (Hcode Hact) as [HA Hcf]. split; [exact HA|].
       destruct H4 as [->| ->]; [now apply forallb_tl|exact Hcf]. }
     destruct (cc_next_of th) eqn:Hnx; auto.
     - apply next_start in Hnx as (Hact & o & rest & Hp). rewrite Hp in *. inversion Hprog as [|? ? HAo Hrest]; subst.
-      destruct (cc_begin o (th_slots th)) as [f code] eqn:Hb. cbn. split; [exact HP|].
+      destruct (cc_begin false o (th_slots th)) as [f code] eqn:Hb. cbn. split; [exact HP|].
       eapply threads_set; eauto. split; cbn; [exact Hrest|]. intros _.
       pose proof (cc_begin_for o (th_slots th)) as [H1 H2]. rewrite Hb in H1, H2. cbn in H1, H2. now rewrite H1.
     - apply next_instr in Hnx as (Hact & r & Hc). destruct (Hcode Hact) as [HA Hcf]. destruct i as [l x|l|l|a].
@@ -1138,7 +1215,7 @@ Section Transfer.
       - split; [exact HP0|]. intros t' th Hn. cbn in Hn. rewrite nth_error_map in Hn.
         destruct (nth_error progs t') as [sp|] eqn:Hs; [|discriminate]. inversion Hn; subst. split; cbn; [|discriminate].
         apply Forall_forall. intros o Ho. apply (HA sp o); [now apply nth_error_In in Hs|exact Ho].
-      - rewrite run_snoc. destruct IH as [IH1 IH2]. now apply cc_step_P. }
+      - rewrite run_snoc. destruct IH as [IH1 IH2]. apply cc_step_P; auto. now rewrite run_legacy. }
     exact (proj1 H).
   Qed.
 End Transfer.
